@@ -64,6 +64,8 @@ type FuncContract struct {
 	Ghosts     []GhostVar
 	Hooks      []*Hook
 	Flags      map[string]bool
+	Decreases  *Clause  // function-level termination measure (recursion)
+	Forbid     []string // regexps over callee names that must not be called
 	ParamNames []string
 	ResNames   []string
 	File       string
@@ -388,6 +390,13 @@ func (cs *Contracts) parseContractFile(path, pkgPath string) error {
 				}
 				cur.Assigns = append(cur.Assigns, AssignSpec{Src: a, E: e})
 			}
+		case "decreases":
+			c, ok := mkClause(rest)
+			if ok {
+				cur.Decreases = &c
+			}
+		case "forbid":
+			cur.Forbid = append(cur.Forbid, strings.TrimSpace(rest))
 		case "params":
 			cur.ParamNames = strings.Fields(strings.ReplaceAll(rest, ",", " "))
 		case "results":
